@@ -2,6 +2,8 @@ package main
 
 import (
 	"strings"
+
+	"golang.org/x/tools/go/ssa"
 )
 
 // feasible asks one fast solver whether the path condition extended by cond is satisfiable, using only the
@@ -25,4 +27,38 @@ func (ex *Exec) feasible(st *State, cond Term) bool {
 		ex.pruned++
 	}
 	return !unsat
+}
+
+// pureContractCall handles a call, inside a pure closure, to a function whose contract assigns nothing and DEFINES its
+// result (an ensures clause of the form `result <==> E` or `result == E`): the call is replaced by E; the callee's
+// requires become conditions the closure needs in order to be safe.
+func (ex *Exec) pureContractCall(st *State, x *ssa.Call, pc Term) (Value, bool) {
+	callee := x.Call.StaticCallee()
+	if callee == nil {
+		return nil, false
+	}
+	spec, cf := ex.db.fnSpec(callee)
+	if spec == nil || !(spec.Pure || (spec.AssignsSet && len(spec.Assigns) == 0)) {
+		return nil, false
+	}
+	org := callee
+	if callee.Origin() != nil {
+		org = callee.Origin()
+	}
+	env := &Env{ex: ex, cur: st, old: st, vars: map[string]TV{}, cf: cf, inQuant: 1}
+	for i, p := range org.Params {
+		if i < len(x.Call.Args) {
+			env.vars[p.Name()] = TV{st.val(x.Call.Args[i]), x.Call.Args[i].Type()}
+		}
+	}
+	for _, r := range spec.Requires {
+		ex.pure.safe = append(ex.pure.safe, tImp(pc, env.evalBool(r.Expr)))
+	}
+	for _, e := range spec.Ensures {
+		if e.Expr.Kind == "binop" && (e.Expr.Op == "<==>" || e.Expr.Op == "==") && e.Expr.Args[0].Kind == "ident" && e.Expr.Args[0].Op == "result" {
+			ex.usedContracts[calleeName(callee)] = spec
+			return env.eval(e.Expr.Args[1]).V, true
+		}
+	}
+	return nil, false
 }
